@@ -14,8 +14,11 @@ LEVEL = "exploration"
 RULE = ("seeded programs of the union workload (timers, scope trees, task cancellation, until "
         "blocks, conditions, locks, queues, channels, resources, pipes, tickers, collect/first, "
         "the operation table, usim.py resources), 70 % with 1-3 injected faults; every program "
-        "is executed under {heap, SD wait queue} x {no junk, junk allocations} x {gc.collect() "
-        "at seeded kernel events or not} in-process, and batches of programs are re-executed in "
+        "is executed under {heap, SD wait queue} x {no junk, junk allocations + dropped condition "
+        "objects kept referenced} x {gc.collect() at seeded kernel events or not} in-process; every "
+        "batch also holds 8 wake-order programs (3-6 subscribers of one notification, some leave, "
+        "probes held and dropped, a withdrawn firing), 2 absorbed-delay programs (clock 2**60) and "
+        "6 diamond programs (shared connectives over a common leaf); batches are re-executed in "
         "fresh interpreters under PYTHONHASHSEED in {0, 1, 4242} x USIM_WAITQUEUE in {unset, "
         "SD} x {default, -O}. Non-trivial = the program has at least two activities made "
         "runnable for the same virtual time; distinct = distinct observable trace digest.")
